@@ -1,0 +1,78 @@
+//go:build verif
+
+package hintdetail
+
+// Contracts for the deductive verifier in /verif (comment-only file; see /verif/DESIGN.md).
+
+//@ type withHint invariant self.cause != nil
+//@ type withDetail invariant self.cause != nil
+
+//@ method (*withHint).Error
+//@   props C10
+//@   ensures result == msg(self.cause)
+//@ method (*withHint).Cause
+//@   props C07 C10 C14
+//@   ensures result == self.cause
+//@ method (*withHint).Unwrap
+//@   props C07 C10 C14
+//@   ensures result == self.cause
+//@ method (*withHint).ErrorHint
+//@   props C19 C11
+//@   ensures result == self.hint
+
+//@ method (*withDetail).Error
+//@   props C10
+//@   ensures result == msg(self.cause)
+//@ method (*withDetail).Cause
+//@   props C07 C10 C14
+//@   ensures result == self.cause
+//@ method (*withDetail).Unwrap
+//@   props C07 C10 C14
+//@   ensures result == self.cause
+//@ method (*withDetail).ErrorDetail
+//@   props C19 C11
+//@   ensures result == self.detail
+
+//@ func WithHint
+//@   props C10 C07 C12
+//@   ensures err == nil ==> result == nil
+//@   ensures err != nil ==> typeis(result, *withHint) && result.(*withHint).cause == err && result.(*withHint).hint == msg
+
+//@ func WithHintf
+//@   props C10
+//@   ensures err == nil ==> result == nil
+//@   ensures err != nil ==> typeis(result, *withHint) && result.(*withHint).cause == err
+
+//@ func WithDetail
+//@   props C10 C07 C12
+//@   ensures err == nil ==> result == nil
+//@   ensures err != nil ==> typeis(result, *withDetail) && result.(*withDetail).cause == err && result.(*withDetail).detail == msg
+
+//@ func WithDetailf
+//@   props C10
+//@   ensures err == nil ==> result == nil
+//@   ensures err != nil ==> typeis(result, *withDetail) && result.(*withDetail).cause == err
+
+//@ func encodeWithHint
+//@   props C01 C11
+//@   requires typeis(err, *withHint)
+//@   ensures result0 == "" && len(result1) == 0
+//@   ensures typeis(result2, *errorspb.StringPayload) && result2.(*errorspb.StringPayload).Msg == err.(*withHint).hint
+
+//@ func decodeWithHint
+//@   props C05 C01 C11
+//@   requires cause != nil
+//@   ensures !typeis(payload, *errorspb.StringPayload) ==> result == nil
+//@   ensures typeis(payload, *errorspb.StringPayload) ==> typeis(result, *withHint) && result.(*withHint).cause == cause && result.(*withHint).hint == payload.(*errorspb.StringPayload).Msg
+
+//@ func encodeWithDetail
+//@   props C01 C11
+//@   requires typeis(err, *withDetail)
+//@   ensures result0 == "" && len(result1) == 0
+//@   ensures typeis(result2, *errorspb.StringPayload) && result2.(*errorspb.StringPayload).Msg == err.(*withDetail).detail
+
+//@ func decodeWithDetail
+//@   props C05 C01 C11
+//@   requires cause != nil
+//@   ensures !typeis(payload, *errorspb.StringPayload) ==> result == nil
+//@   ensures typeis(payload, *errorspb.StringPayload) ==> typeis(result, *withDetail) && result.(*withDetail).cause == cause && result.(*withDetail).detail == payload.(*errorspb.StringPayload).Msg
